@@ -489,6 +489,12 @@ def analyse_guarded(h, guard, stmts, where):
             continue
         if s[0] == "simple" and re.fullmatch(r"(SB\[pp_id\]\.set_(xy|z)\((\w+)(,\w+)?\)|standpoint->set_orientation\(\w+\))", s[1]):
             continue
+        # sink guarded by "the point has no coordinates of this group yet" for a point inside <coordinates> (no effect on
+        # acceptance or on the values checked; what is stored is C13's concern)
+        if s[0] == "if" and s[3] is None and re.fullmatch(r"!\(observed&&SB\[pp_id\]\.test_(xy|z)\(\)\)", s[1]) and \
+                [b[1] for b in flat(s[2]) if b[0] == "simple"] and \
+                all(b[0] == "simple" and re.fullmatch(r"SB\[pp_id\]\.set_(xy|z)\((\w+)(,\w+)?\)", b[1]) for b in flat(s[2])):
+            continue
         fail(f"{where}: unrecognised statement under `if ({guard} != \"\")`: {s}")
 
 
@@ -628,7 +634,7 @@ def analyse_handler(src_all, name, func_body, classes, consts):
             if cond == "!ext.empty()" and els is None and flat(then) == [("simple", "coordinates->set_extern(ext)")]:
                 h.sinks.add("ext")
                 continue
-            if cond == "process_point(atts)" and els is None and flat(then) == [("simple", "return 1")]:
+            if cond in ("process_point(atts)", "process_point(atts,true)") and els is None and flat(then) == [("simple", "return 1")]:
                 h.calls.append("point")
                 continue
             if cond == "!pp_xydef&&!pp_zdef" and els is None and is_ret_error(then):
